@@ -1062,12 +1062,23 @@ class MapValues:
 class MapKeyList(PList):
     """list(symmap.keys()): symbolic snapshot of the key set at creation time"""
 
-    __slots__ = ("has0", "m")
+    __slots__ = ("has0", "m", "ks", "pos")
 
     def __init__(self, m: SymMap, interp):
         super().__init__([])
         self.m = m
         self.has0 = m.has
+        # the keys as a sequence `ks` that enumerates exactly the key set: every element is a key
+        # and every key k occurs at position pos(k)
+        ctx = interp.ctx
+        from .sym import IntSeq
+
+        nm = ctx.fresh_name(f"keys({m.name})")
+        self.ks = z3.Const(nm, IntSeq)
+        self.pos = z3.Function(nm + ".pos", z3.IntSort(), z3.IntSort())
+        has0, ks, pos = self.has0, self.ks, self.pos
+        ctx.seq_facts.append((ks, lambda el: z3.Select(has0, el)))
+        ctx.assume_forall(lambda k: z3.Implies(z3.Select(has0, k), z3.And(pos(k) >= 0, pos(k) < z3.Length(ks), ks[pos(k)] == k)))
 
 
 class GenValue:
